@@ -326,7 +326,8 @@ func cmdCheck(args []string) {
 			retry = append(retry, i)
 		}
 	}
-	if len(retry) > 0 && len(retry) <= 24 {
+	if len(retry) > 0 && len(retry) <= 64 {
+		allSolvers = true
 		var wg2 sync.WaitGroup
 		for _, i := range retry {
 			wg2.Add(1)
